@@ -3,6 +3,7 @@ package harness
 import (
 	"fmt"
 	"math/rand"
+	"sort"
 	"time"
 )
 
@@ -564,5 +565,67 @@ func genAckLostTakeover(rng *rand.Rand, seed int64) *Scenario {
 	sc.Steps = append(sc.Steps, Step{At: 0, Kind: "start", Inst: 1})
 	sc.Steps = append(sc.Steps, Step{At: 3*h + time.Duration(rng.Intn(900))*ms, Kind: "start", Inst: 2})
 	sc.End = 5 * time.Second
+	return sc
+}
+
+// genLease: the hypotheses of C02 / C07 at their edge — latencies up to just below H/2, TTL ratios from 3 up,
+// heartbeat intervals that differ inside the group, arbitrary watch delays (optionally lost notifications),
+// and instances that start, stop (both calls, every option), and restart at arbitrary moments.
+func genLease(rng *rand.Rand, seed int64) *Scenario {
+	h := []time.Duration{200 * ms, 300 * ms, 500 * ms, 1000 * ms}[rng.Intn(4)]
+	ratio := []int{3, 3, 4, 6}[rng.Intn(4)]
+	n := 2 + rng.Intn(4)
+	minH := h
+	hs := make([]time.Duration, n+1)
+	for i := 1; i <= n; i++ {
+		hs[i] = h
+		if rng.Intn(4) == 0 {
+			hs[i] = h / 2
+			minH = h / 2
+		}
+	}
+	ttl := time.Duration(ratio) * h
+	maxLat := minH / 2
+	latMax := maxLat - 2*ms
+	if rng.Intn(3) == 0 {
+		latMax = maxLat / 4
+	}
+	sc := &Scenario{Name: "lease", Seed: seed, StoreTTL: ttl, Lat: map[int]LatSpec{0: {Min: 1 * ms, Max: latMax}},
+		WatchMin: 1 * ms, WatchMax: []time.Duration{h / 8, h, 2 * h}[rng.Intn(3)], End: 24 * h, Sample: h / 2,
+		Responsive: true, NoOutside: true, NoPreempt: true, FaultFree: true, MaxLat: maxLat}
+	if rng.Intn(3) == 0 {
+		sc.WatchDrop = 0.3
+		sc.FaultFree = false
+	}
+	for i := 1; i <= n; i++ {
+		is := InstSpec{ID: i, Group: "g", TTL: ttl, H: hs[i]}
+		switch rng.Intn(6) {
+		case 0:
+			is.Promote = "none"
+		case 1:
+			is.Promote = "block"
+		}
+		sc.Insts = append(sc.Insts, is)
+		at := time.Duration(rng.Int63n(int64(3*h)))/2*2 + 1
+		sc.Steps = append(sc.Steps, Step{At: at, Kind: "start", Inst: i})
+		// a life of stops and restarts
+		for at < 20*h && rng.Intn(3) > 0 {
+			at += time.Duration(rng.Int63n(int64(8*h)))/2*2 + 2
+			switch rng.Intn(3) {
+			case 0:
+				sc.Steps = append(sc.Steps, Step{At: at, Kind: "stop", Inst: i})
+			default:
+				sc.Steps = append(sc.Steps, Step{At: at, Kind: "stopctx", Inst: i, Del: rng.Intn(3) > 0, Wait: rng.Intn(2) == 0,
+					Timeout: []time.Duration{0, 50 * ms, 2 * time.Second}[rng.Intn(3)]})
+			}
+			if rng.Intn(4) > 0 {
+				at += time.Duration(rng.Int63n(int64(3*h)))/2*2 + 2
+				sc.Steps = append(sc.Steps, Step{At: at, Kind: "start", Inst: i})
+			} else {
+				break
+			}
+		}
+	}
+	sort.SliceStable(sc.Steps, func(a, b int) bool { return sc.Steps[a].At < sc.Steps[b].At })
 	return sc
 }
